@@ -155,7 +155,9 @@ where
                 let amount = amount.min(MAX_HEADERS_AMOUNT_RESPONSE);
                 let mut responses = vec![];
 
-                for i in origin..origin + amount {
+                // `origin + amount` can overflow for origins close to `u64::MAX`,
+                // so we iterate up to the maximum height instead.
+                for i in (origin..=u64::MAX).take(amount as usize) {
                     match store.get_by_height(i).await {
                         Ok(h) => {
                             if responses.is_empty() {
